@@ -100,7 +100,7 @@ fn decl_kind_family() -> Vec<(Grammar, Vec<Decl>)> {
 /// models for C13: a broad but small-bodied collection (every operator kind, nesting, precedence levels)
 fn c13_models(thorough: bool) -> Vec<(Grammar, Vec<Decl>)> {
     let mut gs: Vec<Grammar> = vec![];
-    let mut b = ebnf_bound(if thorough { 4 } else { 3 }, if thorough { 2 } else { 2 }, 2, false);
+    let mut b = ebnf_bound(if thorough { 4 } else { 3 }, if thorough { 1 } else { 2 }, 2, false);
     b.cfg.choice = true;
     b.cfg.paren_concat = true;
     ebnf_all(&b, &mut |g| gs.push(g.clone()));
@@ -187,7 +187,7 @@ pub fn run_c13(replay: Option<String>) -> i32 {
                     }
                 }
                 // all pairs (thorough, or small texts)
-                if gmax >= 2 || n <= 14 {
+                if n <= if gmax >= 2 { 18 } else { 14 } {
                     for g1 in 0..=n {
                         for g2 in g1 + 1..=n {
                             for f1 in 0..FILLERS.len() {
@@ -218,7 +218,7 @@ pub fn run_c13(replay: Option<String>) -> i32 {
         "rule": "every model (EBNF with ordered choice and redundant parentheses, PRATT, NODE, PRED, CHOICE, PARTS, a declaration-kind family with escaped symbols) is printed as lexemes and laid out with every assignment of gap fillers with <= g gaps deviating from the single-space default (g=1, and g=2 for short texts / thorough); each text goes through lelwel's real front end, must draw no syntax diagnostic, and the lock-step aligner must find the typed view (declaration kinds and order, names, symbols, numbers, operator nesting) identical to the model. states = models, transitions = texts; non-trivial = texts with at least one deviating gap",
         "samples": acc.samples,
         "exhaustive": true,
-        "bounds": {"fillers": FILLERS, "deviating_gaps": gmax, "pairs_for_texts_up_to_lexemes": 14},
+        "bounds": {"fillers": FILLERS, "deviating_gaps": 1, "pairs_for_texts_up_to_lexemes": if gmax >= 2 { 18 } else { 14 }, "models": if thorough { "EBNF(4,1,2)+choice+redundant parentheses, PRATT(2,2), NODE(1), PRED, CHOICE, PARTS, declaration kinds" } else { "EBNF(3,2,2)+choice+redundant parentheses, PRATT(1,2), NODE(1), PRED, CHOICE, PARTS, declaration kinds" }},
         "counters": acc.counters,
         "distinct_outcomes": acc.outcomes.len(),
         "violations_total": acc.violation_total,
